@@ -3,7 +3,9 @@
 //!   * `recl.compare`: `RbModel.RecL.Compile.compile p` = the real instruction list, instruction for instruction
 //!     (positions, label names, resolved addresses, field names, type numbers);
 //!   * `recl.run`: `RbModel.RecL.Vm.run` on the model-compiled code = real outcome and stdout;
-//!   * `recl.ref`: the big-step reference semantics `RbModel.RecL.Ref.run` = real outcome and stdout.
+//!   * `recl.ref`: the big-step reference semantics `RbModel.RecL.Ref.run` = real outcome and stdout;
+//!   * `recl.wf`: the premise checker `RbModel.RecL.progWfB` of the simulation theorem `RecL.compile_correct`
+//!     (`lean/Thm/RecLSim.lean`), counted per program as `theorem-premise.progWfB-true` / `-false`.
 //! Usage for debugging: `c04r <file.bas>` prints the three answers for one program.
 
 use rb_harness::driver::ask;
@@ -811,6 +813,23 @@ fn main() {
     let canswers = ask(&cases.iter().map(|c| format!("(recl.compare {} {} {})", c.prog, c.tables, c.code)).collect::<Vec<_>>());
     let vanswers = ask(&cases.iter().map(|c| format!("(recl.run {} {})", BUDGET, c.prog)).collect::<Vec<_>>());
     let ranswers = ask(&cases.iter().map(|c| format!("(recl.ref {} {})", FUEL, c.prog)).collect::<Vec<_>>());
+    // how many explored programs satisfy the premise of RecL.compile_correct (decided by the checker
+    // RbModel.RecL.progWfB, proved sound in Thm/RecLWf.lean)
+    let wanswers = ask(&cases.iter().map(|c| format!("(recl.wf {})", c.prog)).collect::<Vec<_>>());
+    let mut outside_shown = 0;
+    for (k, a) in wanswers.iter().enumerate() {
+        if a.starts_with("(wf true") {
+            rep.bump("theorem-premise.progWfB-true");
+        } else if a.starts_with("(wf false") {
+            rep.bump("theorem-premise.progWfB-false");
+            if outside_shown < 2 {
+                outside_shown += 1;
+                rep.sample(J::s(format!("outside the premise of RecL.compile_correct:\n{}", cases[k].text)));
+            }
+        } else {
+            rep.bump("theorem-premise.unreadable");
+        }
+    }
     let mut shrunk = 0;
     for (k, c) in cases.iter().enumerate() {
         let real = &reals[k];
